@@ -1,5 +1,6 @@
 """C11 — select_copula returns a calibrated candidate and recovers the true family."""
 import math
+import os
 import warnings
 
 import numpy as np
@@ -33,7 +34,9 @@ RULE = ('pseudo-observation arrays X (n,2): samples of Clayton/Frank/Gumbel draw
         'float64 C-ordered image of the same values, and every ROUTE to the deprecated alias (class, instance, concrete '
         'families, Bivariate(copula_type=...)) against the module function; PERFECT '
         'dependence (identical / monotone / sorted / rank columns and their reversals, n in {2,3,10,200}, tau = +-1 exactly, '
-        'and 1 - tiny with a tie or one inversion): the full statement incl. theta finite and admissible; an '
+        'and 1 - tiny with a tie or one inversion): the full statement incl. theta finite and admissible; a work BUFFER refilled in '
+        'place between calls against fresh copies; TINY positive tau = 2/C(n,2) (tie-free, prescribed C-D) against the exact '
+        'rational calibration at 1e-10; tau/theta scalar FORM with to_dict/json/from_dict/save/load round trips; an '
         'ALIASING batch (8 calls on harness-sampled arrays covering all three families, all results kept and re-checked: '
         'unchanged, pairwise distinct objects, equal to a second call on the same X); and LARGE-n cases (n = 10000, '
         '12000, 20001 from harness-side samplers): _compute_empirical against the definition over all rows (1e-12) and '
@@ -1411,6 +1414,159 @@ def perfect_oracle(ctx):
     return sum(perfect_case(ctx, spec) for spec in perfect_specs())
 
 
+# ----------------------------------------------------------------------------------- round 9: buffer reuse, tiny tau, scalar form
+def weak_dependence(n, cd_target, seed):
+    """tie-free independent uniforms whose (#concordant - #discordant) pair count is brought down to exactly
+    `cd_target` > 0 by exchanging the v-values of v-rank neighbours that form a concordant pair (each exchange turns
+    exactly one pair discordant): Kendall tau = cd_target / C(n,2) exactly."""
+    from scipy import stats
+    r = np.random.RandomState(seed)
+    X = r.uniform(size=(n, 2))
+    pairs = n * (n - 1) // 2
+    cd = int(round(stats.kendalltau(X[:, 0], X[:, 1])[0] * pairs))
+    if cd < 0:
+        X[:, 1] = 1.0 - X[:, 1]
+        cd = -cd
+    if (cd - cd_target) % 2:
+        cd_target += 1
+    start = 0
+    while cd > cd_target:
+        order = np.argsort(X[:, 1], kind='stable')
+        a, b = order[start:-1:2], order[start + 1::2]
+        a = a[:len(b)]
+        conc = np.flatnonzero(X[a, 0] < X[b, 0])[:(cd - cd_target) // 2]
+        a, b = a[conc], b[conc]
+        X[a, 1], X[b, 1] = X[b, 1].copy(), X[a, 1].copy()
+        cd -= 2 * len(conc)
+        start = 1 - start
+    return X, cd
+
+
+# (n, target C-D, seed): seeds chosen so that Clayton, Gumbel and Frank are each returned at least once (unchanged tree)
+TINY_TAU = ((20000, 2, 3), (6000, 2, 1), (20000, 2, 0), (20000, 2, 2), (20000, 200, 0))
+
+
+def tiny_tau_case(ctx, spec):
+    from fractions import Fraction
+    from copulas.bivariate import select_copula
+    from scipy import stats
+    n, target, seed = spec
+    X, cd = weak_dependence(n, target, seed)
+    pairs = n * (n - 1) // 2
+    inp = {'generator': 'c11.weak_dependence', 'n': n, 'concordant_minus_discordant': cd, 'seed': seed,
+           'target': target, 'exact_tau': f'{cd}/{pairs}'}
+    cls = 'select_copula:theta-not-calibrated:tiny-positive-tau'
+    req = 'tau is the Kendall tau of X (= (C-D)/C(n,2), tie-free) and theta is the family\'s calibration of it to a ' \
+          'relative 1e-10 (Clayton 2tau/(1-tau), Gumbel 1/(1-tau) as exact rationals; Frank: the solver\'s solution)'
+    with np.errstate(all='ignore'):
+        tau = stats.kendalltau(X[:, 0], X[:, 1])[0]
+        r = select_copula(X)
+    fam = fam_of(r)
+    ctx.count('tiny-tau:' + str(fam))
+    exact_tau = Fraction(cd, pairs)
+    obs = {'family': fam, 'tau': float(r.tau), 'theta': float(r.theta), 'kendalltau': float(tau)}
+    ok = fam is not None and same(r.tau, tau) and abs(float(tau) - float(exact_tau)) <= 1e-12 * float(exact_tau)
+    if ok:
+        if fam == 'frank':
+            ok, ref = theta_is_own(r.theta, tau)
+        else:
+            ref = float(2 * exact_tau / (1 - exact_tau)) if fam == 'clayton' else float(1 / (1 - exact_tau))
+            ok = abs(float(r.theta) - ref) <= 1e-10 * abs(ref)
+        obs['exact_calibration'] = ref
+        obs['relative_error'] = abs(float(r.theta) - ref) / abs(ref)
+    if not ok:
+        ctx.fail_input('copulas.bivariate.select_copula', inp, obs, req, cls)
+    return 3
+
+
+def tiny_tau_oracle(ctx):
+    return sum(tiny_tau_case(ctx, spec) for spec in TINY_TAU)
+
+
+BUFFER_BATCH = (('clayton', 0.5, 800, 7101), ('gumbel', 0.5, 800, 7102), ('frank', 0.5, 800, 7103),
+                ('clayton', 0.6, 800, 7104), ('gumbel', 0.7, 800, 7105), ('clayton', 0.3, 800, 7106))
+
+
+def buffer_reuse_oracle(ctx, batch=BUFFER_BATCH):
+    """one preallocated ndarray, refilled in place between calls (no other array in between): every call must answer
+    as it does on a fresh copy of the same values."""
+    from copulas.bivariate import select_copula
+    datas = [own_sample(*spec) for spec in batch]
+    buf = np.empty_like(datas[0])
+    got = []
+    for X in datas:
+        buf[:] = X
+        got.append(result_of(lambda: select_copula(buf)))
+    # the same object modified in place (one column reversed and restored: the values change, the object does not)
+    work = datas[0].copy()
+    first = result_of(lambda: select_copula(work))
+    work[:, :] = datas[1]
+    second = result_of(lambda: select_copula(work))
+    fresh = [result_of(lambda: select_copula(X.copy())) for X in datas]
+    inp = {'batch': [list(s) for s in batch], 'sampler': 'harness own_sample'}
+    cls = 'select_copula:result-depends-on-array-identity'
+    req = 'select_copula is a function of the VALUES of X: a work buffer refilled in place gives what a fresh copy of the ' \
+          'same values gives'
+    ctx.count('buffer-reuse:' + ''.join(sorted({f[1][0] for f in fresh if f[0] == 'ok'})))
+    for i, (g, f) in enumerate(zip(got, fresh)):
+        if not res_close(g, f, 0.0):
+            ctx.fail_input('copulas.bivariate.select_copula', dict(inp, call=i, how='buf[:] = X_i; select_copula(buf)'),
+                           {'on_the_reused_buffer': g, 'on_a_fresh_copy': f}, req, cls)
+            return len(batch) + 2
+    if not (res_close(first, fresh[0], 0.0) and res_close(second, fresh[1], 0.0)):
+        ctx.fail_input('copulas.bivariate.select_copula', dict(inp, call=1, how='work[:, :] = X_1 after select_copula(work) on X_0'),
+                       {'on_the_modified_array': [first, second], 'on_fresh_copies': fresh[:2]}, req, cls)
+    return len(batch) + 2
+
+
+def scalar_form_case(ctx, spec):
+    """tau and theta of the returned object are float scalars (Python or numpy), to_dict() is JSON-serialisable and
+    from_dict / save+load give back the same family, tau and theta."""
+    import json
+    import tempfile
+    from copulas.bivariate import Bivariate, select_copula
+    X = np.ascontiguousarray(own_sample(*spec), dtype=np.float64)
+    with np.errstate(all='ignore'):
+        r = select_copula(X)
+    fam = fam_of(r)
+    ctx.count('scalar-form:' + str(fam))
+    inp = {'sampler': 'harness own_sample', 'family': spec[0], 'tau': spec[1], 'n': spec[2], 'seed': spec[3]}
+    problems = []
+    for nm in ('tau', 'theta'):
+        v = getattr(r, nm)
+        if isinstance(v, np.ndarray) or not isinstance(v, (float, np.floating)) or np.ndim(v) != 0:
+            problems.append(f'{nm} is a {type(v).__name__}' + (f' of shape {np.shape(v)}' if isinstance(v, np.ndarray) else ''))
+    try:
+        text = json.dumps(r.to_dict())
+        back = Bivariate.from_dict(json.loads(text))
+        if not (fam_of(back) == fam and same(back.tau, r.tau) and same(back.theta, r.theta)):
+            problems.append(f'from_dict(to_dict()) gives {fam_of(back)} tau={back.tau!r} theta={back.theta!r}')
+    except Exception as e:  # noqa
+        problems.append(f'json.dumps(to_dict()) / from_dict raises {type(e).__name__}: {str(e)[:80]}')
+    try:
+        d = '/scratch' if os.path.isdir('/scratch') else None
+        with tempfile.TemporaryDirectory(dir=d) as tmp:
+            path = os.path.join(tmp, 'copula.json')
+            r.save(path)
+            back = Bivariate.load(path)
+        if not (fam_of(back) == fam and same(back.tau, r.tau) and same(back.theta, r.theta)):
+            problems.append(f'load(save()) gives {fam_of(back)} tau={back.tau!r} theta={back.theta!r}')
+    except Exception as e:  # noqa
+        problems.append(f'save / load raises {type(e).__name__}: {str(e)[:80]}')
+    if problems:
+        ctx.fail_input('copulas.bivariate.select_copula', inp,
+                       {'family': fam, 'type(tau)': type(r.tau).__name__, 'type(theta)': type(r.theta).__name__,
+                        'problems': problems},
+                       'tau and theta of the returned candidate are float scalars; to_dict() is JSON-serialisable and '
+                       'from_dict / save+load restore the same family, tau and theta',
+                       'select_copula:result-not-plain-scalars')
+    return 4
+
+
+def scalar_form_oracle(ctx):
+    return sum(scalar_form_case(ctx, spec) for spec in FORM_DATA)
+
+
 RECOVERY_TAUS = (0.3, 0.5, 0.7)
 RECOVERY_N = 3000
 RECOVERY_SEEDS = 10
@@ -1444,6 +1600,9 @@ def search(ctx, deep):
     checks += negative_tau_oracle(ctx)
     checks += raw_tau_oracle(ctx)
     checks += perfect_oracle(ctx)
+    checks += buffer_reuse_oracle(ctx)
+    checks += tiny_tau_oracle(ctx)
+    checks += scalar_form_oracle(ctx)
     checks += forms_oracle(ctx)
     checks += routes_oracle(ctx)
     cells = {}
@@ -1485,6 +1644,15 @@ def replay(ctx, payload):
             return inp.get('form') in hit
         routes_case(ctx, spec, lambda sp, name, *a: hit.append(name))
         return inp.get('route') in hit
+    if cls == 'select_copula:result-depends-on-array-identity' and 'batch' in inp:
+        buffer_reuse_oracle(ctx, tuple(tuple(b) for b in inp['batch']))
+        return any(f['class'] == cls for f in ctx.failing[before:])
+    if cls == 'select_copula:theta-not-calibrated:tiny-positive-tau' and 'seed' in inp:
+        tiny_tau_case(ctx, (inp['n'], inp['target'], inp['seed']))
+        return any(f['class'] == cls for f in ctx.failing[before:])
+    if cls == 'select_copula:result-not-plain-scalars' and 'seed' in inp:
+        scalar_form_case(ctx, (inp['family'], inp['tau'], inp['n'], inp['seed']))
+        return any(f['class'] == cls for f in ctx.failing[before:])
     if str(inp.get('dataset', '')).startswith('perfect:') and 'seed' in inp:
         perfect_case(ctx, (inp['dataset'].split(':', 1)[1], inp['n'], inp['seed']))
         return any(f['class'] == cls for f in ctx.failing[before:])
